@@ -421,7 +421,9 @@ where
             // set yield_memory to the sentinel value O+1 so that the next step() call
             // will yield the value in self.state (the adams step that was within
             // tolerance after these runge-kutta steps)
-            if self.yield_memory == 0 {
+            // (only if such a step was taken: start-up steps that reach the end of
+            // the interval are committed without one)
+            if self.yield_memory == 0 && self.time.real() > self.prev_values[get_item].0 {
                 self.yield_memory = O + 1;
             }
             return Ok(self.prev_values[get_item].clone());
@@ -438,6 +440,14 @@ where
                 .push_back((self.time.real(), self.state.clone()));
             self.prev_values.pop_front();
             return Ok((self.time.real(), self.state.clone()));
+        }
+
+        // An adams step from unchecked runge-kutta steps would go past the end of
+        // the interval, so it can not be used to check them. Commit to them so
+        // that they are yielded before the solver finishes.
+        if self.yield_memory == O && self.time.real() + self.dt.real() >= self.end.real() {
+            self.yield_memory -= 1;
+            return Err(IVPStatus::Redo);
         }
 
         if self.time.real() >= self.end.real() {
